@@ -114,7 +114,7 @@ def main(tier: str) -> int:
                 fkey = [C.float_key(v) for v in fit]
                 psl = [[int(x) for x in p] for p in ps]
                 for s in range(nseeds):
-                    seed = chk.seed * 100000 + s
+                    seed = chk.seed * 100000 + (n * 31 + k * 7 + int(binary)) * 1000 + s     # other draws for every (length, parents, alphabet)
                     rs_i, rs_u = np.random.RandomState(seed), np.random.RandomState(seed)
                     todo = ["empty_crossover", "uniform_crossover", "uniform_proportional_crossover", "uniform_rank_crossover", "uniform_tournament_crossover"]
                     if k == 2:
@@ -202,6 +202,28 @@ def main(tier: str) -> int:
                          {"fn": name, "clause": "complete"})
             if extra:
                 chk.fail("a crossover produced a child outside its named structure", {"operator": name, "extra": sorted(extra)[:4]}, {"fn": name, "clause": "structure"})
+
+    # aimed coverage for the cut-point and per-locus crossovers: with distinguishable parents and 60 draws per possible child, every child
+    # of the named structure appears (and nothing else)
+    for n in (2, 3, 4, 5):
+        a, b = [0] * n, [1] * n
+        ps2 = np.array([a, b], dtype=np.int8)
+        one = np.ones(2)
+        aims = {"one_point_crossover": {tuple(a[:c + 1] + b[c + 1:]) for c in range(n)} | {tuple(b[:c + 1] + a[c + 1:]) for c in range(n)},
+                "two_point_crossover": {tuple(a[:c0] + b[c0:c1 + 1] + a[c1 + 1:]) for c0 in range(n) for c1 in range(c0 + 1, n)} |
+                                       {tuple(b[:c0] + a[c0:c1 + 1] + b[c1 + 1:]) for c0 in range(n) for c1 in range(c0 + 1, n)},
+                "uniform_crossover": set(itertools.product((0, 1), repeat=n))}
+        for name, expected in aims.items():
+            fn = getattr(X, name)
+            numba_seed(chk.seed * 1000 + 8_000_000 + n)
+            got = {tuple(int(x) for x in fn(ps2, one, one)) for _ in range(60 * len(expected) * (2 if name == "two_point_crossover" else 1))}
+            chk.count("aimed_coverage_" + name)
+            chk.case(("aimed", name, n))
+            if got != expected:
+                chk.fail("a crossover cannot produce every child of its named structure (children over all supplied parents are missing)" if expected - got else
+                         "a crossover produced a child outside its named structure",
+                         {"operator": name, "parents": [a, b], "missing": sorted(expected - got)[:6], "extra": sorted(got - expected)[:4], "draws": 60 * len(expected)},
+                         {"fn": name, "clause": "complete" if expected - got else "structure"})
 
     # aimed coverage for the tournament variant with three parents (every parent must be able to win a locus)
     ps3 = np.array([[0, 0, 0], [1, 1, 1], [2, 2, 2]], dtype=np.int8)
